@@ -295,10 +295,10 @@ def orders_strategy():
 
 def synth_strategy():
     return st.builds(
-        lambda shapes, orders, subsets: {"shapes": shapes, "orders": orders, "subsets": subsets},
-        st.lists(tree_shapes(4), min_size=1, max_size=3),
+        lambda orders, subsets, shapes: {"shapes": shapes, "orders": orders, "subsets": subsets},
         orders_strategy(),
         st.lists(st.integers(1, 2**40), max_size=12),
+        st.lists(tree_shapes(4), min_size=1, max_size=3),
     )
 
 
@@ -354,10 +354,10 @@ def real_strategy():
     from .. import programs
 
     return st.builds(
-        lambda p, orders, subsets: {"program": p, "orders": orders, "subsets": subsets},
-        programs.programs(max_nodes=8, faults=False),
+        lambda orders, subsets, p: {"program": p, "orders": orders, "subsets": subsets},
         orders_strategy(),
         st.lists(st.integers(1, 2**40), max_size=8),
+        programs.programs(max_nodes=8, faults=False, max_depth=3),
     )
 
 
